@@ -171,6 +171,9 @@ def const_app(environ, start_response):
     return [b"app"]
 
 
+WRONG_HASH = ("wrong-hash", "hash-prefix", "hash-junk")
+
+
 def body_debugger(I, X, cmd="eval", hn=3, secret="right", cookie_kind="absent"):
     import werkzeug.debug as dbg
     from werkzeug.exceptions import SecurityError
@@ -203,6 +206,11 @@ def body_debugger(I, X, cmd="eval", hn=3, secret="right", cookie_kind="absent"):
         else:
             ts = X.int("ts", 1700000000 - dbg.PIN_TIME - 60, 1700000100 - dbg.PIN_TIME + 60)
             h = dbg.hash_pin(right_pin) if cookie_kind == "valid-hash" else "0" * 12
+            if cookie_kind == "hash-prefix":
+                # a proper prefix of the right hash (the empty one included)
+                h = dbg.hash_pin(right_pin)[:X.choice("prefix_len", [0, 1, 6, 11])]
+            elif cookie_kind == "hash-junk":
+                h = dbg.hash_pin(right_pin) + "0"
             environ["HTTP_COOKIE"] = pconcat(f"{app.pin_cookie_name}=", pstr(ts), f"|{h}")
     frm = X.choice("frm", ["known", "unknown", "absent"])
     args = {"__debugger__": "yes"}
@@ -270,14 +278,14 @@ def body_debugger(I, X, cmd="eval", hn=3, secret="right", cookie_kind="absent"):
         # more than ten failures: even the right PIN is refused (a still-valid cookie aside)
         locked = pand(counter > 10, pnot(cookie_ok))
         ok = pand(ok, pimplies(locked, auth is False))
-        if cookie_kind != "wrong-hash":
+        if cookie_kind not in WRONG_HASH:
             ok = pand(ok, pimplies(locked, exhausted is True))
         # and authentication needs a valid cookie or the right pin
         ok = pand(ok, pimplies(auth is True, por(cookie_ok, args.get("pin") == right_pin)))
         # the counting step: every failed attempt adds exactly one (so that "more than ten
         # failures" is reached after eleven), a success by PIN resets, nothing else changes
         after = app._failed_pin_auth.value
-        if cookie_kind == "wrong-hash":
+        if cookie_kind in WRONG_HASH:
             ok = pand(ok, peq(after, counter + 1))
         elif cookie_kind == "valid-hash":
             ok = pand(ok, pimplies(cookie_ok, peq(after, counter)))
@@ -370,7 +378,7 @@ def obligations(tier, seed):
     for cmd in ("eval", "console", "pinauth", "printpin", "resource", "none"):
         for hn in ([-1, 1, 3] if quick else [-1, 0, 1, 2, 3, 4]):
             for secret in ("right", "wrong", "absent"):
-                for ck in ("absent", "valid-hash", "wrong-hash", "malformed"):
+                for ck in ("absent", "valid-hash", "wrong-hash", "malformed") + (("hash-prefix", "hash-junk") if secret == "right" and hn in (1, 3) else ()):
                     out.append({"name": f"debugger[{cmd},host_len={hn},secret={secret},cookie={ck}]", "body": "body_debugger",
                                 "params": {"cmd": cmd, "hn": hn, "secret": secret, "cookie_kind": ck},
                                 "opts": {"budget_s": 1500, "ctx": {"max_cp": 0x7F, "bv_ints": True, "max_digits": 12}},
